@@ -178,10 +178,12 @@ pub fn gen_doc_with(r: &mut Rng, with_crypt_override: bool, stale_objstm: bool) 
     let mut d = RDoc::new();
     let n = 2 + r.usize_below(8);
     let strv = |r: &mut Rng| -> RObj {
-        let len = match r.below(6) {
+        let len = match r.below(7) {
             0 => 0,
             1 => 16,
             2 => 1 + r.usize_below(15),
+            // (longer than one turn of the RC4 state, several AES blocks)
+            3 => 250 + r.usize_below(600),
             _ => 16 + r.usize_below(40),
         };
         RObj::Str(if r.bool() { r.bytes(len) } else { (0..len).map(|_| 0x20 + r.u8() % 0x5f).collect() }, r.bool())
@@ -194,9 +196,10 @@ pub fn gen_doc_with(r: &mut Rng, with_crypt_override: bool, stale_objstm: bool) 
             1 => RObj::Array((0..r.usize_below(4)).map(|_| strv(r)).collect()),
             2 => RObj::Dict(vec![(k("A"), strv(r)), (k("B"), RObj::Dict(vec![(k("C"), strv(r))])), (k("R"), RObj::Ref(1, 0))]),
             _ => {
-                let len = match r.below(5) {
+                let len = match r.below(6) {
                     0 => 0,
                     1 => 16,
+                    2 => 255 + r.usize_below(1500),
                     _ => r.usize_below(200),
                 };
                 let body = if r.bool() { r.bytes(len) } else { b"BT (text) Tj ET ".iter().cycle().take(len).cloned().collect() };
